@@ -221,13 +221,14 @@ def case_strategy(draw, tier):
         argv = argv + draw(options.codegen_options(indirect=None))
         choices = draw(st.lists(st.lists(st.integers(0, 4095), min_size=0, max_size=10), min_size=4, max_size=8))
         return prog, argv, choices
-    if draw(st.integers(0, 7)) == 0:
-        prog, datas = draw(gen.break_loop_program())
+    fam = draw(st.integers(0, 9))
+    if fam in (0, 1):
+        prog, datas = draw(gen.break_loop_program() if fam == 0 else gen.last_foreach_program())
         argv = list(prog.argv) + draw(options.codegen_options(indirect=None))
         return prog, argv, datas[:8]
     mode = draw(st.sampled_from(["plain", "plain", "yield", "eof", "both"]))
     cfg = gen.GenConfig(max_depth=2, max_stmts=4, allow_yield=mode in ("yield", "both"), allow_end=mode in ("eof", "both"),
-                        kinds={"yield": 2 if mode in ("yield", "both") else 0})
+                        kinds={"yield": 2 if mode in ("yield", "both") else 0, "foreach": 2}, allow_last=True)
     prog = draw(gen.program(cfg))
     argv = list(prog.argv) + draw(options.codegen_options(indirect=True if mode in ("yield", "both") else None))
     choices = draw(st.lists(st.lists(st.integers(0, 4095), min_size=2, max_size=24), min_size=4, max_size=8))
